@@ -101,7 +101,7 @@ RULE = ('cell enumeration: constness sources (const global, element of a const a
         'function bodies; whole-object writes (const array / struct / element assignment, array and struct reference arguments); '
         'reference arguments of template instantiations; forall/exists/sum binders (rejection half only: no context permits a '
         'write there). Twin: the same operation on a mutable object of the same type and scope. Oracle: the write to the '
-        'constant is rejected (>= 1 error), the twin is accepted (no error). Non-trivial: every cell; distinct = (source, form).')
+        'constant is rejected (>= 1 error), the twin is accepted (no error). A stride of the cells (quick: every 9th, thorough: every 2nd) is additionally spliced into larger generated models (hosts from gen_model.py with all identifiers renamed) and judged the same way. Non-trivial: every cell; distinct = (source, form, host).')
 
 
 def assemble(src, stmt):
@@ -147,35 +147,57 @@ def worker(chk, wi, nw):
     stats = common.Stats()
     orc = oracle.Oracle(os.path.join(chk.workdir, 'w%d' % wi), cpu_limit=60)
     run = cells.Runner(orc, stats)
-    mine = [c for k, c in enumerate(build_cells()) if k % nw == wi]
-    items = []
-    for (sname, fname, W, R) in mine:
-        items.append((W, None))
-        if R is not None:
-            items.append((R, None))
-    res = run.run_many(items)
-    pos = 0
-    for (sname, fname, W, R) in mine:
-        w = res[pos]
-        pos += 1
-        r = None
-        if R is not None:
-            r = res[pos]
+    mine_ids = [k for k, c in enumerate(build_cells()) if k % nw == wi]
+
+    def evaluate(ids, embedded):
+        allc = build_cells()          # rebuilt so that cells.model() sees the host that is currently set
+        subset = [allc[k] for k in ids]
+        items = []
+        for (sname, fname, W, R) in subset:
+            items.append((W, None))
+            if R is not None:
+                items.append((R, None))
+        res = run.run_many(items)
+        pos = 0
+        tag = '@embedded' if embedded else ''
+        for (sname, fname, W, R) in subset:
+            w = res[pos]
             pos += 1
-        lhs = any(('Left_hand_side' in m or 'Incompatible_argument' in m) for m in w['errors'])
-        stats.case(sname + '|' + fname, nontrivial=True,
-                   classes=['source:' + sname.split('@')[0], 'form:' + fname.split('@')[0].split(' ')[0], 'W:' + ('rejected' if cells.rejected(w) else 'ACCEPTED'),
-                            'W-message:' + ('lvalue/argument' if lhs else 'other')],
-                   sample={'source': sname, 'form': fname, 'W_errors': w['errors'][:2]})
-        if w['crash'] or (r and r['crash']):
-            stats.extra['crashes_seen_(C01)'] += 1
-            continue
-        if not cells.rejected(w):
-            chk.report(stats, {'source': sname, 'form': fname, 'side': 'const-write-accepted'},
-                       'write form %s on constness source %s is accepted' % (fname, sname), {'kind': 'model', 'xml': W, 'expect': 'rejected'})
-        if r is not None and cells.rejected(r):
-            chk.report(stats, {'source': sname, 'form': fname, 'side': 'twin-rejected'},
-                       'the mutable twin of %s on %s is rejected: %r' % (fname, sname, r['errors'][:2]), {'kind': 'model', 'xml': R, 'expect': 'accepted'})
+            r = None
+            if R is not None:
+                r = res[pos]
+                pos += 1
+            lhs = any(('Left_hand_side' in m or 'Incompatible_argument' in m) for m in w['errors'])
+            stats.case(sname + '|' + fname + ('|' + W if embedded else ''), nontrivial=True,
+                       classes=['source:' + sname.split('@')[0], 'form:' + fname.split('@')[0].split(' ')[0], 'W:' + ('rejected' if cells.rejected(w) else 'ACCEPTED'),
+                                'W-message:' + ('lvalue/argument' if lhs else 'other')] + (['embedded'] if embedded else []),
+                       sample={'source': sname, 'form': fname, 'embedded': embedded, 'W_errors': w['errors'][:2]})
+            if w['crash'] or (r and r['crash']):
+                stats.extra['crashes_seen_(C01)'] += 1
+                continue
+            if not cells.rejected(w):
+                chk.report(stats, {'source': sname, 'form': fname, 'side': 'const-write-accepted' + tag},
+                           'write form %s on constness source %s is accepted%s' % (fname, sname, ' inside a larger generated model' if embedded else ''), {'kind': 'model', 'xml': W, 'expect': 'rejected'})
+            if r is not None and cells.rejected(r):
+                chk.report(stats, {'source': sname, 'form': fname, 'side': 'twin-rejected' + tag},
+                           'the mutable twin of %s on %s is rejected%s: %r' % (fname, sname, ' inside a larger generated model' if embedded else '', r['errors'][:2]), {'kind': 'model', 'xml': R, 'expect': 'accepted'})
+
+    evaluate(mine_ids, False)
+
+    # the same cells spliced into larger generated models
+    import gen_model as M
+    from hypothesis import strategies as st
+    stride = 9 if chk.tier == 'quick' else 2
+
+    def test(args):
+        m, off = args
+        host = cells.host_from_model(m, off)
+        with cells.embedding(host):
+            evaluate(mine_ids[off % stride::stride], True)
+        return None
+
+    common.run_hypothesis(chk, stats, st.tuples(M.models(need_clean=True, max_templates=2), st.integers(0, 1000)), test, 3 if chk.tier == 'quick' else 20,
+                          chk.seed * 1000 + wi, shrink=False)
     orc.close()
     return stats
 
